@@ -29,6 +29,10 @@ def lex_variant():
 
 
 def run(ctx):
+    import time as _t
+    _t0 = _t.time()
+    phases = {}
+    ctx.extra["phase_s"] = phases
     rng = ctx.rng
     ff, fe = lex_variant()
 
@@ -110,7 +114,11 @@ def run(ctx):
     for c in (b"message A {} \x01", b'a "x\\', cases[-1]):
         ctx.sample({"mode": "lex", "s": c.hex(), "text": repr(c)})
 
+    phases["cases+impl+oracle"] = round(_t.time() - _t0, 1)
+    _t1 = _t.time()
     mism, err = coq_eval_mismatches("cases_C29", X.CORR_HEADER, terms, "xlex_chk", shard_size=ctx.budget(300, 1200))
+    phases["coq_eval"] = round(_t.time() - _t1, 1)
+    phases["before_run"] = round(_t0 - ctx.t0, 1)
     if err:
         raise RuntimeError(err)
     for k in mism:
